@@ -79,6 +79,7 @@
       one `-` / `+` line, `checkDiffElement`).
 -/
 import JdProofs.V1ListDiffPatch
+import JdProofs.PathSites
 import JdProofs.V1MergeRender
 import JdProofs.V1SetDiffPatch
 
@@ -379,5 +380,12 @@ example : V1.readDiffM NativeRT.exCodec "@ [\"a\"]\n- [null]\n+ true\n" =
     .ok [{ path := [.str "a"], old := [.arr .raw [.null]], new := [.bool true] }] :=
   v1_render_then_read NativeRT.exCodec V1S.Example.exL _ (by decide) V1S.Example.exL_codecOK
     V1S.Example.exL_render
+
+/-! ### v1: stored paths are copies (see JdProps/C01.lean for the v2 statement and what it is for) -/
+
+/-- lib/: every path stored in a hunk by the diff-building code is a copy; every path expression is safe -/
+theorem v1_stored_paths_are_copies :
+    (Gen.pathSites.filter (fun s => Jd.PathSites.isV1 s && !Jd.PathSites.isWrite s)).all Jd.PathSites.ok = true :=
+  Jd.PathSites.v1_diff_paths_ok
 
 end Jd.Props.C17
